@@ -22,3 +22,43 @@ fn f4_weighted_svd_basis_is_translation_and_weight_scale_invariant() {
         assert!(a.basis[i].dot(&u.basis[i]).abs() > 1.0 - 1e-9, "axis {} differs from unweighted for unit weights: {:?} vs {:?}", i, a.basis[i], u.basis[i]);
     }
 }
+
+/// F16: a frame that is an exact half turn away from the identity (e.g. primary axis -x, secondary +y) must come out as the
+/// proper rotation (-x, +y, -z). `UnitQuaternion::from_matrix` is an iterative extraction started at the identity, for which
+/// an exact 180 degree rotation is a stationary point; it returns (nearly) the identity instead.
+#[test]
+fn f16_half_turn_frames_are_exact() {
+    use engeom::geom3::IsoExtensions3;
+    use engeom::{Iso3, Vector3};
+    let cases = [
+        (Vector3::new(-1.0, 0.0, 0.0), Vector3::new(0.0, 1.0, 0.0)),
+        (Vector3::new(1.0, 0.0, 0.0), Vector3::new(0.0, -1.0, 0.0)),
+        (Vector3::new(-2.0, 0.0, 0.0), Vector3::new(0.0, -3.0, 0.0)),
+        (Vector3::new(0.0, 1.0, 0.0), Vector3::new(1.0, 0.0, 0.0)),
+    ];
+    for (e0, e1) in cases.iter() {
+        let iso = Iso3::try_from_basis_xy(e0, e1, None).unwrap();
+        let x = iso * Vector3::x();
+        let y = iso * Vector3::y();
+        assert!((x - e0.normalize()).norm() < 1e-9, "x axis {:?} is not the normalised first argument {:?}", x, e0);
+        assert!((y - e1.normalize()).norm() < 1e-9, "y axis {:?} is not the (already orthogonal) second argument {:?}", y, e1);
+    }
+}
+
+/// F16 (siblings): the same iterative extraction is used by iso3_from_basis, iso3_from_xyo and iso2_from_basis.
+#[test]
+fn f16_half_turn_frames_from_bases() {
+    use engeom::common::svd_basis::{iso2_from_basis, iso3_from_basis, iso3_from_xyo};
+    use engeom::{Point2, Point3, UnitVec3, Vector2, Vector3};
+    // 3D: frame (-x, +y, -z) at the origin: the inverse maps world -x to local +x
+    let iso = iso3_from_basis(&[-Vector3::x(), Vector3::y(), -Vector3::z()], &Point3::origin());
+    let v = iso * (-Vector3::x());
+    assert!((v - Vector3::x()).norm() < 1e-9, "iso3_from_basis: world -x must be local +x, got {:?}", v);
+    let iso = iso3_from_xyo(&UnitVec3::new_normalize(-Vector3::x()), &UnitVec3::new_normalize(Vector3::y()), &Point3::origin());
+    let v = iso * (-Vector3::x());
+    assert!((v - Vector3::x()).norm() < 1e-9, "iso3_from_xyo: world -x must be local +x, got {:?}", v);
+    // 2D: frame (-x, -y)
+    let iso = iso2_from_basis(&[-Vector2::x(), -Vector2::y()], &Point2::origin());
+    let v = iso * (-Vector2::x());
+    assert!((v - Vector2::x()).norm() < 1e-9, "iso2_from_basis: world -x must be local +x, got {:?}", v);
+}
